@@ -13,7 +13,7 @@ CHECKS = {
         design_ref="3/C01",
     ),
     "C02": dict(
-        technique="Hypothesis-generated programs x answer-key subsets x six backend names against the brute-force solution set (reference model); external solvers replaced by an independent stand-in",
+        technique="Hypothesis-generated programs x answer-key subsets x six backend names against the brute-force solution set (reference model); closed-form families for many refinement rounds and for wide key sets (up to 2600 keys); external solvers replaced by an independent stand-in",
         text="For each generated enumerable program and key subset the full solution set is enumerated; solve() must return True iff it is non-empty and every key's sol must be the common value or None exactly as the set dictates. Both refinement routes: cspuz' own refute-and-resolve loop (z3, sugar incl. a real subprocess) and the native deduction reply (sugar_extended, csugar, enigma_csp, cspuz_core) answered by vlib/fakesolver. A generous solve-count budget (16 + 2 x the summed domain sizes of the keys) turns a non-terminating refinement loop into a deterministic failure. Exploration: sampled programs. A closed-form family with 70-170 boolean keys needs about one satisfiable refinement round per key (many-rounds).",
         note="Trusted base: vlib/gen_expr.rev evaluator, brute-force enumeration, vlib/sexp + vlib/fakesolver as a correct external solver (cross-checked against refz3). Real Sugar/csugar/cspuz_core binaries are not available offline. 9/9 sensitivity mutants caught.",
         design_ref="3/C02",
@@ -31,7 +31,7 @@ CHECKS = {
         design_ref="3/C12",
     ),
     "C13": dict(
-        technique="exhaustive small-scope enumeration + Hypothesis key pairs against Python list indexing (differential oracle)",
+        technique="exhaustive small-scope enumeration + Hypothesis key pairs against Python list indexing (differential oracle); model-based histories over a pool of derived arrays (index / reshape / flatten)",
         text="Every integer key, slice triple (bounds in [-size-3,size+3], steps +-1,2,3,5), key pair, coordinate list, flatten and reshape on all 1-D sizes 0..6 and 2-D shapes up to 4x4 (plus 2x5/5x2/1x6) is compared with Python's own list indexing; exhaustive inside that scope, sampled by Hypothesis beyond it. Arrays with more than 256 elements (17x17, 16x17, 300x1, 1x257, 20x20, 3x100) are flattened, reshaped to every factorisation and sliced as well. Exploration level: no absence proof beyond the scope.",
         note="Trusted base: CPython list/slice semantics as the oracle; variable ids as element identity. Step 0 is outside the domain; 'no row selected + out-of-range column integer' accepts either outcome. Mutants caught: see DESIGN.md section 7.",
         design_ref="3/C13",
@@ -46,19 +46,19 @@ CHECKS["C20"] = dict(
 )
 
 CHECKS["C04"] = dict(
-    technique="small-scope exhaustion: all 2^n activity patterns of all small graphs/grids decided on the posted encoding by an independent solver (projection) vs BFS, plus Hypothesis-generated end-to-end find_answer cases",
+    technique="small-scope exhaustion: all 2^n activity patterns of all small graphs/grids decided on the posted encoding by an independent solver (projection) vs BFS, plus Hypothesis-generated end-to-end find_answer cases, winding shapes and histories on one Graph object that grows between calls (model-based)",
     text="For every labelled simple graph on <=4 (thorough 5) vertices, drawn simple/multi graphs up to 7 (9) vertices and every grid shape with h*w <= 11 (16) through the BoolArray2D form, x acyclic x {rank encoding, native atom}, the public function is called once and ALL 2^n patterns are decided on the posted program (read through the public data model) by vlib/refz3 and compared with BFS connectivity / tree-ness: soundness, completeness and 'no other constraint on the caller's variables' at once. Native atoms are evaluated by the reference semantics. Every small graph is entered in three edge orientations (ascending, descending, long edges reversed). End-to-end cases feed the pattern as pinned/negated variables, expressions, constants, list/BoolArray1D/BoolArray2D through find_answer (z3, cspuz_core stand-in). Exhaustive within the scope, sampled beyond. Winding shard: grids of 12-36 cells through the array form (rank encoding, acyclic on/off) with spiral / snake / ring / random induced-path patterns and neighbours that break them, decided on the posted program.",
     note="Trusted base: vlib/graphref BFS, vlib/refz3 (self-checked against brute force), z3 as LIA decision procedure. Acyclic mode on simple graphs only. 9/9 sensitivity mutants caught (one design-list mutant, '>= 1 -> == 1' in the non-acyclic branch, turned out to be semantically equivalent and was replaced).",
     design_ref="3/C04",
 )
 CHECKS["C08"] = dict(
-    technique="small-scope exhaustion of all activity patterns on all small graphs and grid shapes (projection through an independent solver) against the graph definition, three-way on grids",
+    technique="small-scope exhaustion of all activity patterns on all small graphs and grid shapes (projection through an independent solver) against the graph definition, three-way on grids; constructed long chains (zig-zags, serpentines on 230-330 cell boards) end to end",
     text="ALL 2^n patterns of every labelled simple graph on <=4 (5) vertices, drawn multigraphs up to 7 (8), and every grid shape with h*w <= 12 (16) incl. all 1xN/Nx1, for not_adjacent and not_adjacent_and_not_segmenting, in the specialised grid form and the explicit-graph form, are decided on the posted program and compared with the definition (no edge with both ends active; inactive vertices connected). Beyond the exhaustive scope, boards 4x6..7x5 and 4x9 (thorough up to 8x8) are probed with constructed patterns (border-rooted diagonal zig-zag chains plus isolated cells) through one projection query per shape. Exhaustive within the scope, sampled beyond.",
     note="Trusted base: vlib/graphref, vlib/refz3. Empty inactive set counts as connected. 9/9 sensitivity mutants caught; found and fixed the 1xN defect.",
     design_ref="3/C08",
 )
 CHECKS["C09"] = dict(
-    technique="small-scope exhaustion of all edge subsets of all small multigraphs (projection through an independent solver) against union-find",
+    technique="small-scope exhaustion of all edge subsets of all small multigraphs (projection through an independent solver) against union-find; long graphs and histories on one Graph object that grows between calls",
     text="ALL 2^m edge subsets of every loop-free multigraph with n<=4, m<=6 (thorough n<=5) and of drawn multigraphs with n<=6, m<=9 are decided on the posted program and compared with union-find cycle detection (parallel active edges are a cycle); flags also supplied as negated variables / expressions / constants through find_answer. Exhaustive within the scope. Long graphs: paths / cycles / stars of 17-45 vertices and grid graphs of 25-49 vertices with winding active edge sets, one pattern per case.",
     note="Trusted base: vlib/graphref.UF, vlib/refz3. 6/6 sensitivity mutants caught.",
     design_ref="3/C09",
@@ -100,7 +100,7 @@ CHECKS["C14"] = dict(
 )
 
 CHECKS["C15"] = dict(
-    technique="Hypothesis joint generation of (combinator term, value in its domain) with a round-trip oracle up to canonical room order and an exact-consumption check with junk appended",
+    technique="Hypothesis joint generation of (combinator term, value in its domain) with a round-trip oracle up to canonical room order and an exact-consumption check with junk appended; sparse / blank boards over the densest space packings",
     text="Terms are drawn over all thirteen combinators: item-level alternatives (HexInt / IntSpaces / MultiDigit, Spaces, Dict) combined in OneOf with pairwise disjoint first-character classes in any order, item streams built from chunks so that runs cross the one-character limit, values sit at 15/16/255/256/4095 and rows end in partial digit groups; composites Tupl, Seq (incl. length 0 and nested), Grid (explicit or environment size, 1xN, Nx1), Rooms and ValuedRooms over random connected partitions with rooms and cells in random order. deserialize_problem(serialize_problem(v)) must equal v up to the canonical ordering of rooms with values still attached to their rooms, and the low-level deserialize must consume exactly the produced characters, also with junk appended; a third of the size-dependent terms are used a second time, as the same object, for a board of another size. Exploration (sampled).",
     note="Trusted base: vlib/gen_comb (sound-by-construction value generation; its stated preconditions are listed in the evidence assumptions). 13/13 sensitivity mutants caught; four genuine defects found and fixed (Grid size 0, Grid item index, empty encodings at end of input, ValuedRooms ordering).",
     design_ref="3/C15",
